@@ -26,4 +26,9 @@ def valueOverrides : List (String × String) :=
    ("opset.ai.onnx.v19", "_Constant"),
    ("opset.ai.onnx.v21", "_Constant")]
 
+/-- Operators excluded from value propagation (`_NON_DETERMINISTIC_OPS`, consulted by
+    `propagate_values_onnx`; empty when the guard is gone). -/
+def samplingGuard : List String :=
+  ["Bernoulli", "Dropout", "Multinomial", "RandomNormal", "RandomNormalLike", "RandomUniform", "RandomUniformLike"]
+
 end Generated.MLOverrides
